@@ -15,6 +15,7 @@ mod interp;
 mod pairs;
 mod planobs;
 mod polobs;
+mod poltext;
 mod psbtobs;
 mod sat;
 mod tapobs;
@@ -68,6 +69,7 @@ fn main() {
             "compile" => compobs::run_case(&u, &case),
             "crash" => crashobs::run_case(&u, &case),
             "cksum" => cksumobs::run_case(&u, &case),
+            "poltext" => poltext::run_case(&u, &case),
             "translate" => transobs::run_case(&u, &case),
             _ => {
                 eprintln!("unknown command {}", cmd);
